@@ -201,6 +201,15 @@ def make_rgfa(rng, n_ref=4, max_len=3, n_bubbles=2, hap_mode="mixed", inversion=
     return Graph(segs, out)
 
 
+def colon_contigs(g):
+    """same graph with contig names that contain ':' (chr1 -> chr:1, hap1#chr1 -> hap1:chr:1, injective): an SN:Z value may hold
+    any printable character, and stable coordinates `>contig:start-end` are then split at the LAST ':' (defect F18)"""
+    for s in g.segs:
+        if s.sn is not None:
+            s.sn = s.sn.replace("#", ":").replace("chr", "chr:")
+    return g
+
+
 def gaf_record(g, walk, start, end, name="r", qlen=None, strand="+", mapq=60, cigar=None, tags=(),
                matches=None, block=None):
     """A GAF line (list of fields) for `walk` = [(id, '>'|'<')...] aligned on [start, end)."""
